@@ -3,6 +3,7 @@ import RbV.Lemmas.UkkonenEq
 import RbV.Lemmas.EdTextbook
 import RbV.Lemmas.MyersStep
 import RbV.Lemmas.MyersBlock
+import RbV.Lemmas.MyersLongAll
 /-!
 # C09 — approximate matchers and distance functions equal the edit-distance definition
 
@@ -223,7 +224,25 @@ theorem myers_block_step {w : Nat} (bnd : Nat) (hn : bnd + 1 ≤ w) (D : Nat →
       RbV.Model.MyersLong.nextCB D eq.getLsbD b0 (bnd + 1) - D (bnd + 1) :=
   RbV.Model.MyersLong.advanceBlock_enc bnd hn D eq s b0 hin hh hb enc hd hnn
 
+/-- **[C] block-based Myers — partial.**  Full statement (not proved; it needs the band invariant: active blocks hold
+a pseudo-column that is ≥ the true one and equal to it wherever the true value is ≤ k, rows of inactive blocks are > k):
+
+    ∀ w ≥ 1, eqv, p ≠ [], t, k :  Model.MyersLong.findAllEnd w eqv p t k = hits (unitW eqv) p t k
+
+Proved fragment: the same equation for `k ≥ |p|` — then `States::new` activates every block, `States::step` never
+adds or drops one, and the chain of `advance_block` calls with the carry handed from block to block
+(`Model.MyersLong.advanceAll_enc`, built on `myers_block_step`) computes the next Sellers column on all rows, for every
+word width, every pattern length (any number of blocks, last block partial or full), every equivalence and text.
+The band logic (activation test `last_dist − carry ≤ k ∧ (match at the next row ∨ carry < 0)`, `add_state`,
+deactivation at `dist ≥ k + w`) is covered by running this mirror model in the driver next to the oracle. -/
+theorem myers_long_allblocks_partial (w : Nat) (eqv : Nat → Nat → Bool) (p t : List Nat) (k : Nat)
+    (hw : 1 ≤ w) (hp : 1 ≤ p.length) (hk : p.length ≤ k) :
+    RbV.Model.MyersLong.findAllEnd w eqv p t k = hits (unitW eqv) p t k :=
+  RbV.Model.MyersLong.findAllEnd_eq_hits_allActive w eqv p t k hw hp hk
+
 -- non-vacuity: concrete instances
+example : RbV.Model.MyersLong.findAllEnd 2 eqSym [1, 2, 1, 1, 3] [1, 2, 1, 3, 1, 1, 3, 2] 5 =
+    hits (unitW eqSym) [1, 2, 1, 1, 3] [1, 2, 1, 3, 1, 1, 3, 2] 5 := by decide
 example : RbV.Model.MyersSimple.findAllEnd 8 eqSym [1, 2, 1] [1, 2, 1, 3, 1, 1] 1 = [(1, 1), (2, 0), (3, 1), (4, 1), (5, 1)] := by decide
 example : RbV.Model.Ukkonen.findAllEnd (unitW eqSym) [1, 2, 1] [1, 2, 1, 3, 1, 1] 1 = [(1, 1), (2, 0), (3, 1), (4, 1), (5, 1)] := by decide
 example : ed (unitW eqSym) [1, 2, 3] [1, 3] = 1 := by rw [← edFast_eq]; decide
